@@ -44,6 +44,7 @@ func (propC08) Gen(seed uint64, tier string) *Case {
 		cfg.EqualKeys = 0.3 // known-finding trigger (equal-text key order follows map order)
 	}
 	g := &Gen{r: r, cfg: cfg}
+	g.late = r.Chance(0.2)
 	g.universe()
 	rec := &Recipe{Paths: g.paths}
 	rec.File = genFileSpec(g, r, true)
@@ -91,8 +92,26 @@ func (propC08) Gen(seed uint64, tier string) *Case {
 			rec.Ops = append(rec.Ops, a)
 		}
 	}
+	var fileSlots []int // placeholders that live in declarations added to the File itself
 	addDecl := func() {
 		d := g.decl()
+		if g.late && r.Chance(0.4) {
+			// a declaration whose call / list has a LEADING item that is still empty (renders
+			// nothing) and gets its content later: var V = f(<empty>, x)  /  []T{<empty>, x}
+			slot := 1000 + len(g.slots)
+			g.slots = append(g.slots, slot)
+			fileSlots = append(fileSlots, slot)
+			ph := &Node{K: "placeholder", I: slot}
+			switch r.Intn(3) {
+			case 0:
+				d = &Node{K: "var", S: g.newID(), N: []*Node{{K: "call", N: []*Node{{K: "id", S: g.id()}, ph, g.expr(1, -1)}}}}
+			case 1:
+				// a List has no delimiters of its own: while all its items are empty it renders nothing at all
+				d = &Node{K: "func", S: g.newID(), B: []*Node{{K: "ret", N: []*Node{{K: "list", N: []*Node{ph}}}}}}
+			default:
+				d = &Node{K: "var", S: g.newID(), N: []*Node{{K: "slice", N: []*Node{{K: "t_any"}, ph, g.expr(1, -1)}}}}
+			}
+		}
 		mark(d)
 		rec.Ops = append(rec.Ops, Op{K: "add", Node: d})
 	}
@@ -128,6 +147,11 @@ func (propC08) Gen(seed uint64, tier string) *Case {
 			rec.Ops = append(rec.Ops, Op{K: "render_body", W: wplan()})
 		case x < 79:
 			addDecl()
+		case x < 81 && len(fileSlots) > 0:
+			// an argument that was empty so far gets its content
+			slot := fileSlots[0]
+			fileSlots = fileSlots[1:]
+			rec.Ops = append(rec.Ops, Op{K: "fill", I: slot, Node: &Node{K: "id", S: g.newID()}})
 		case x < 82:
 			st := g.stmt(1)
 			mark(st)
@@ -172,7 +196,7 @@ func (propC08) Gen(seed uint64, tier string) *Case {
 
 func stateChanging(k string) bool {
 	switch k {
-	case "add", "add_to_group", "addfrag", "cgo", "hint_name", "hint_names", "hint_names_shared", "hint_names_alt", "hint_alias", "anon", "prefix", "noformat", "pkgcomment", "header", "canonical":
+	case "add", "add_to_group", "addfrag", "addfrag_chain", "fill", "cgo", "hint_name", "hint_names", "hint_names_shared", "hint_names_alt", "hint_alias", "anon", "prefix", "noformat", "pkgcomment", "header", "canonical":
 		return true
 	}
 	return false
@@ -201,6 +225,8 @@ func checkHistoryC08(rec *Recipe, hist []Outcome, ri *RunInfo) *Violation {
 				op := rec.Ops[i]
 				switch {
 				case o.Kind == "add" && op.Node != nil && (op.Node.K == "var" || op.Node.K == "func" || op.Node.K == "struct"):
+					expectIdents[op.Node.S] = i
+				case o.Kind == "fill" && op.Node != nil && op.Node.K == "id" && op.I >= 1000:
 					expectIdents[op.Node.S] = i
 				case o.Kind == "add_to_group" && o.Obj == "filegroup" && op.Node != nil:
 					if op.Node.K == "define" {
